@@ -44,6 +44,7 @@ def retention_cases(draw, max_n=40):
         "tf": tf,
         "fill": bool(tf) and draw(st.booleans()),
         "lifespan": max(0, lifespan),
+        "ha": draw(st.integers(0, 3)) == 0,
         "stream": rows,
         "preload": preload,
         "chunks": draw(gs.chunking(n - preload)),
@@ -55,6 +56,9 @@ def reading_cases(draw, subject, max_extra=60):
     cfg = draw(gc.config(subject))
     w = gc.warmup(cfg)
     tf = draw(st.one_of(st.none(), st.none(), st.sampled_from(("T1", "T5", "T10", "H1"))))
+    ha = draw(st.integers(0, 4)) == 0
+    if ha:
+        tf = None
     tfs = tf_seconds(tf) if tf else None
     step = draw(st.sampled_from((tfs // 5, tfs // 2, tfs, 2 * tfs))) if tf else draw(st.sampled_from((1, 60, 300)))
     step = max(1, step)
@@ -73,6 +77,7 @@ def reading_cases(draw, subject, max_extra=60):
         "tf": tf,
         "fill": False,
         "lifespan": (w + biggest + margin + 2) * spacing,
+        "ha": ha,
         "stream": rows,
         "preload": preload,
         "preload_calc": True,
@@ -90,6 +95,10 @@ def _mk(case, lifespan):
         kw["timeframe_fill"] = bool(case.get("fill"))
     if lifespan is not None:
         kw["candles_lifespan"] = timedelta(seconds=lifespan)
+    if case.get("ha"):
+        from hexital.candlesticks.heikinashi import HeikinAshi
+
+        kw["candlestick_type"] = HeikinAshi()
     if case["kind"] == "retention" and case.get("mode") == "manager":
         obj = CandleManager(mk_candles(pre), **kw)
     else:
@@ -102,7 +111,7 @@ def _mk(case, lifespan):
 def run_case(case) -> Result:
     subject = gc.subject_of(case["cfg"]) if "cfg" in case else "retention"
     life = case["lifespan"]
-    labels = [case["kind"]]
+    labels = [case["kind"]] + (["ha"] if case.get("ha") else [])
     try:
         free, _ = _mk(case, None)
     except Exception:
@@ -129,6 +138,20 @@ def run_case(case) -> Result:
             if trimmed and with_readings and any(r[6].get(name) is not None for r in want[-1:]):
                 reading_after_trim = True
             trimmed = True
+        if case.get("ha") and case.get("tf"):
+            # a still-forming bucket is re-converted after every merge and then needs its predecessor:
+            # the statement's precondition (needed earlier candles retained) is not guaranteed here,
+            # so only identity (timestamp) and volume are judged for Heikin-Ashi on a collapsing timeframe
+            got = [[r[0], 0, 0, 0, 0, r[5]] for r in got]
+            want = [[r[0], 0, 0, 0, 0, r[5]] for r in want]
+        if [r[0] for r in got] == [r[0] for r in want] and [r[:6] for r in got] != [r[:6] for r in want]:
+            k = next(i for i, (a, b) in enumerate(zip(got, want)) if a[:6] != b[:6])
+            return Violation(
+                "retained-candle-values-differ-from-untrimmed-run",
+                case.get("mode", "indicator") + ("+ha" if case.get("ha") else ""),
+                f"after append {step_no}, retained candle {k}: {got[k][:6]} vs untrimmed {want[k][:6]}",
+                subject,
+            )
         if [r[:6] for r in got] != [r[:6] for r in want]:
             return Violation(
                 "retained-window-wrong",
